@@ -19,6 +19,8 @@ LEVEL_TEXT = (
 
 
 def run(prog: Program, res: Result, tier: str) -> None:
+    from .. import memo
+    memo.report(prog, res)
     res.trusted += ["side seeds: field names of _Parameters/_State, the "
                     "(u, v, state, params) protocol", "sa/pe.py"]
     eqrules.check_eq_sym(prog, res)
@@ -47,7 +49,10 @@ def run(prog: Program, res: Result, tier: str) -> None:
     from . import C11
     tmp = Result(res.prop)
     C11.run(prog, tmp, tier)
-    keep = ("R-REBUILD-SOURCE", "R-SLOT-COVER[relabel]", "R-CONTAINER-KIND")
+    # ... and is the library's own renaming: every identifier of the result
+    # is the image of the source identifier (R-RENAME-ALL / R-RENAME-TOTAL)
+    keep = ("R-REBUILD-SOURCE", "R-SLOT-COVER[relabel]", "R-CONTAINER-KIND",
+            "R-RENAME-ALL", "R-RENAME-TOTAL")
     for r in keep:
         if r in tmp.rules:
             res.rules[r] = tmp.rules[r]
